@@ -12,3 +12,7 @@ func init() {
 func init() {
 	props["C20"] = []Stream{{"dupsort", genDup}}
 }
+
+func init() {
+	props["TXN"] = []Stream{{"txn", genTxn}}
+}
